@@ -113,17 +113,17 @@ type Step struct {
 }
 
 type Sched struct {
-	mu      sync.Mutex
-	threads []*Thread
-	byGid   map[uint64]*Thread
-	wake    chan struct{}
-	devs    map[int]int
-	Trace   []Step
-	last    *Thread
-	window  atomic.Bool
-	killing atomic.Bool
-	start   time.Time
-	Horizon time.Duration
+	mu       sync.Mutex
+	threads  []*Thread
+	byGid    map[uint64]*Thread
+	wake     chan struct{}
+	devs     map[int]int
+	Trace    []Step
+	last     *Thread
+	window   atomic.Bool
+	killing  atomic.Bool
+	start    time.Time
+	Horizon  time.Duration
 	StallCap time.Duration
 	// results
 	HorizonHit  bool
